@@ -25,10 +25,11 @@ where
 
     /// Remove irrelevant constraints
     ///
-    /// The method finds all constraints that refer to unassociated variables in the given
-    /// substitution map. Unassociated variables can be Var(_) or Any. Associated variables are
-    /// already fully constrained by the values they are associated with, whereas unassociated
-    /// variables are constrained by the constraints.
+    /// The method finds all constraints that refer only to variables that the reifying
+    /// substitution map `r` has reified. A disequality that mentions any other variable says
+    /// nothing about the answer: that variable does not occur in the answer, and whatever
+    /// values the reified variables take, it can be given a value that satisfies the
+    /// disequality.
     pub fn purify(self, r: &SMap<U, E>) -> ConstraintStore<U, E> {
         let mut purified_cstore = ConstraintStore::new();
         for constraint in self.0.into_iter() {
@@ -36,7 +37,7 @@ where
                 if tree_constraint
                     .smap_ref()
                     .iter()
-                    .any(|(u, _)| r.is_anyvar(u))
+                    .all(|(u, v)| r.is_reified(u) && r.is_reified(v))
                 {
                     purified_cstore.insert(constraint);
                 }
